@@ -191,6 +191,7 @@ type ConnState struct {
 	Authd bool   `json:"authd"`
 	Tried bool   `json:"tried"`
 	N     int    `json:"n"`
+	Early bool   `json:"early"` // opened, and used once, before the password was configured
 }
 
 // Step is one step of a behaviour.
@@ -220,6 +221,7 @@ type Mismatch struct {
 
 // Stats counts what was executed and compared.
 type Stats struct {
+	Early       int            `json:"early_connections"` // connections opened and used before the password was configured
 	Behaviours  int            `json:"behaviours"`
 	Steps       int            `json:"steps"`
 	Cells       int            `json:"cells"`       // command steps executed
@@ -241,6 +243,7 @@ func newStats() *Stats {
 
 func (s *Stats) add(o *Stats) {
 	s.Behaviours += o.Behaviours
+	s.Early += o.Early
 	s.Steps += o.Steps
 	s.Cells += o.Cells
 	s.Constrained += o.Constrained
@@ -278,8 +281,12 @@ func connName(c ConnState) string {
 		return "refused"
 	case c.Authd:
 		return "authenticated"
+	case c.Tried && c.Early:
+		return "early+wrong-password-tried"
 	case c.Tried:
 		return "wrong-password-tried"
+	case c.Early:
+		return "opened-before-the-password-was-set"
 	}
 	return "fresh"
 }
@@ -394,9 +401,26 @@ func (e *Env) runBehaviour(j job, table map[string]Instance, st *Stats) (ms []Mi
 		st.Steps++
 		switch s.K {
 		case "connect":
+			if s.Post.Early {
+				// the connection exists, and has had an ordinary command answered, before the password is configured
+				// (behaviours of one mode run one after the other on this server, nobody else is connected to it)
+				if err := mustOK(e.ctl, "CONFIG", "SET", "requirepass", ""); err != nil {
+					return ms, "", err
+				}
+			}
 			p, err = dialFrom(e.n.addr, s.Peer)
 			if err != nil {
 				return ms, "", err
+			}
+			if s.Post.Early {
+				warm, _ := p.Do("plain", []string{"GET", "verif-no-such-key", "verif-no-such-id"}, e.fx, replyWait)
+				if err := mustOK(e.ctl, "CONFIG", "SET", "requirepass", e.fx.Vars["pw"]); err != nil {
+					return ms, "", err
+				}
+				if warm.Class == "closed" || warm.Class == "none" || warm.Class == "auth-required" {
+					return ms, "", fmt.Errorf("behaviour %d: the early connection could not be warmed up (%s)", j.idx, warm.Class)
+				}
+				st.Early++
 			}
 			obs := Observed{Class: "accepted"}
 			if !contains(s.Exp.Rep, "accepted") {
